@@ -23,6 +23,18 @@
 (*      set of identifier positions of a sentence - the name is then       *)
 (*      declared, bound and / or used by the same statement; all other     *)
 (*      identifiers stay distinct  ==> "compiles-or-syntax-error".         *)
+(*      RenameKw (profile "kwarg") writes a keyword name the compiler      *)
+(*      passes itself (_loop_vars, _block_vars, caller, ...) at the        *)
+(*      keyword positions of calls placed in every context; RenamePair     *)
+(*      (profile "pairs") writes two identifiers that Python takes for the *)
+(*      same (NFKC) or related (case) names at any two identifier          *)
+(*      positions of a binding statement ==> "compiles-or-syntax-error".   *)
+(*      Profile "fold": constant containers, also those Python cannot      *)
+(*      build (unhashable dict key), at every operand position of the      *)
+(*      expression forms folded at compile time ==> "compiles".            *)
+(*  Mode "numbers"    GrowNum builds every string up to MaxLen over the    *)
+(*      characters of number literals, incl. non-ASCII Unicode digits and  *)
+(*      other number characters ==> "compiles-or-syntax-error".            *)
 (*  Mode "strings"    Grow builds every string up to MaxLen over the       *)
 (*      delimiter-fragment alphabet Sigma, whose delimiter symbols stand   *)
 (*      for the configured delimiters of each syntax configuration.  A     *)
@@ -44,7 +56,7 @@
 EXTENDS Naturals, Sequences, FiniteSets, TLC, Json, IOUtils
 
 CONSTANTS
-    Mode,      \* "skeletons" | "strings" | "outcomes"
+    Mode,      \* "skeletons" | "strings" | "numbers" | "outcomes"
     MaxTok,    \* skeletons: bound on the number of tokens of a sentence
     MaxMut,    \* skeletons: number of token mutations applied (0..2)
     MutSet,    \* skeletons: "none" | "tiny" | "few" | "all" : tokens used by Replace
@@ -58,6 +70,14 @@ CONSTANTS
                \*            "forms": one statement with empty bodies, on the first or second line
                \*            "scope": one statement; every body empty, one use of a name, or a
                \*                     nested binder with a use; every expression a name (for Rename)
+               \*            "fold" : constant container literals (dict / list / tuple whose keys and items
+               \*                     are again constants, also unhashable ones) in every position of an
+               \*                     expression the compiler folds at compile time
+               \*            "kwarg": calls with keyword arguments (positions K) in every context - print,
+               \*                     for (body, else, iterable), if, block, macro, call block, filter block,
+               \*                     block set, with, autoescape, one nested in the other (for RenameKw)
+               \*            "pairs": statements with two or more binding positions - signatures, keyword
+               \*                     arguments, import aliases, set / loop / with targets (for RenamePair)
 
 VARIABLES
     out,       \* tokens derived so far / symbols of the string
@@ -180,8 +200,84 @@ ScopeProds ==
      !.Args   = { <<>>, <<"N">>, <<"N", "=", "N">> },
      !.Params = { <<>>, <<"N">>, <<"N", "=", "1">>, <<"N", ",", "N">> },
      !.Target = { <<"N">> } ]
+\* the "fold" profile: constants and container literals of constants - also those Python cannot
+\* build at compile time (an unhashable dict key) - at every operand position of the expression
+\* forms the compiler evaluates while it compiles (filter, test, attribute, subscript, operators,
+\* membership, inline if, argument of a filter / a call).  Every sentence is a valid template:
+\* what cannot be folded is left to the render.
+FoldProds ==
+  [StmtProds EXCEPT
+     !.Template = { <<"VS", "Post", "VE">>, <<"BS", "if", "(", "Post", ")", "BE", "BS", "endif", "BE">>,
+                    <<"BS", "set", "N", "=", "Post", "BE">> },   \* (no inline if directly in the test of an if tag)
+     !.Sub1  = { <<"1">>, <<"'s'">>, <<"[", "]">>, <<"{", "}">> },           \* keys / items
+     !.Expr0 = { <<"1">>, <<"[", "]">> },                                     \* the other operand
+     !.Atom  = { <<"Sub1">>, <<"{", "Sub1", ":", "Sub1", "}">>, <<"[", "Sub1", "]">>, <<"(", "Sub1", ",", ")">> },
+     !.Bin   = { <<"in">>, <<"==">>, <<"+">> },
+     !.Post  = { <<"Atom">>, <<"Atom", "|", "F">>, <<"Atom", ".", "N">>, <<"Atom", "[", "Expr0", "]">>,
+                 <<"Atom", "is", "T">>, <<"Atom", "Bin", "Expr0">>, <<"-", "Atom">>, <<"not", "Atom">>,
+                 <<"Expr0", "if", "Atom", "else", "Expr0">>, <<"Atom", "if", "Expr0", "else", "Expr0">>,
+                 <<"1", "|", "F", "(", "Atom", ")">>, <<"N", "(", "Atom", ")">>, <<"Expr0", "in", "Atom">> } ]
+\* the "kwarg" profile: a call with keyword arguments (K = the name of a keyword argument) used in
+\* every context in which the compiler passes keyword arguments of its own to the call it generates
+CallK == <<"VS", "N", "(", "K", "=", "1", ")", "VE">>
+KwProds ==
+  [StmtProds EXCEPT
+     !.Template = { <<"Elem">>, <<"Stmt">> },
+     !.ExprT = { <<"N">> },
+     !.Expr  = { <<"N", "(", "K", "=", "1", ")">>, <<"N", "(", "K", "=", "1", ",", "K", "=", "1", ")">>,
+                 <<"N", "|", "F", "(", "K", "=", "1", ")">>, <<"N", "(", "N", ",", "K", "=", "1", ",", "**", "N", ")">>,
+                 <<"N", ".", "N", "(", "K", "=", "1", ")">>, <<"N", "is", "T", "(", "K", "=", "1", ")">> },
+     !.Elem  = { <<"VS", "Expr", "VE">>,
+                 <<"BS", "call", "N", "(", "K", "=", "1", ")", "BE", "BS", "endcall", "BE">>,
+                 <<"BS", "for", "N", "in", "Expr", "BE", "BS", "endfor", "BE">> },
+     !.Elems = { <<"Elem">>,
+                 <<"BS", "for", "N", "in", "N", "BE">> \o CallK \o <<"BS", "endfor", "BE">>,
+                 <<"BS", "block", "N", "BE">> \o CallK \o <<"BS", "endblock", "BE">>,
+                 <<"BS", "macro", "N", "(", ")", "BE">> \o CallK \o <<"BS", "endmacro", "BE">>,
+                 <<"BS", "call", "N", "(", ")", "BE">> \o CallK \o <<"BS", "endcall", "BE">>,
+                 <<"BS", "set", "N", "BE">> \o CallK \o <<"BS", "endset", "BE">>,
+                 <<"BS", "with", "BE">> \o CallK \o <<"BS", "endwith", "BE">> },
+     !.Stmt  = { Body(<<"for", "N", "in", "N">>, "endfor"),
+                 Body(<<"for", "N", "in", "N", "recursive">>, "endfor"),
+                 <<"BS", "for", "N", "in", "N", "BE", "BS", "else", "BE", "Elems", "BS", "endfor", "BE">>,
+                 Body(<<"if", "N">>, "endif"),
+                 Body(<<"block", "N">>, "endblock"),
+                 Body(<<"block", "N", "scoped">>, "endblock"),
+                 Body(<<"macro", "N", "(", ")">>, "endmacro"),
+                 Body(<<"macro", "N", "(", "N", ")">>, "endmacro"),
+                 Body(<<"call", "N", "(", ")">>, "endcall"),
+                 Body(<<"call", "(", "N", ")", "N", "(", ")">>, "endcall"),
+                 Body(<<"filter", "F">>, "endfilter"),
+                 Body(<<"set", "N">>, "endset"),
+                 Body(<<"with">>, "endwith"),
+                 Body(<<"autoescape", "true">>, "endautoescape") } ]
+\* the "pairs" profile: statements with at least two identifier positions of which one binds -
+\* signatures, keyword arguments, import names and aliases, set / loop / with targets, block names
+Use == <<"VS", "N", "VE">>
+PairSents ==
+  { <<"VS", "N", "(", "N", "=", "1", ",", "N", "=", "1", ")", "VE">>,
+    <<"VS", "N", "|", "F", "(", "N", "=", "1", ",", "N", "=", "1", ")", "VE">>,
+    <<"VS", "N", "is", "T", "(", "N", "=", "1", ",", "N", "=", "1", ")", "VE">>,
+    <<"BS", "call", "N", "(", "N", "=", "1", ",", "N", "=", "1", ")", "BE", "BS", "endcall", "BE">>,
+    <<"BS", "macro", "N", "(", "N", ",", "N", ")", "BE">> \o Use \o <<"BS", "endmacro", "BE">>,
+    <<"BS", "macro", "N", "(", "N", "=", "1", ",", "N", "=", "1", ")", "BE", "BS", "endmacro", "BE">>,
+    <<"BS", "call", "(", "N", ",", "N", ")", "N", "(", ")", "BE">> \o Use \o <<"BS", "endcall", "BE">>,
+    <<"BS", "from", "'s'", "import", "N", ",", "N", "BE">>,
+    <<"BS", "from", "'s'", "import", "N", "as", "N", ",", "N", "as", "N", "BE">> \o Use,
+    <<"BS", "import", "'s'", "as", "N", "BE", "BS", "import", "'s'", "as", "N", "BE">> \o Use,
+    <<"BS", "set", "N", ",", "N", "=", "N", "BE">> \o Use,
+    <<"BS", "set", "N", "=", "1", "BE", "BS", "set", "N", "=", "1", "BE">> \o Use,
+    <<"BS", "for", "N", ",", "N", "in", "N", "BE">> \o Use \o <<"BS", "endfor", "BE">>,
+    <<"BS", "with", "N", "=", "1", ",", "N", "=", "1", "BE">> \o Use \o <<"BS", "endwith", "BE">>,
+    <<"BS", "block", "N", "BE", "BS", "endblock", "BE", "BS", "block", "N", "BE", "BS", "endblock", "BE">>,
+    <<"BS", "for", "N", "in", "N", "BE", "BS", "for", "N", "in", "N", "BE">> \o Use
+        \o <<"BS", "endfor", "BE", "BS", "endfor", "BE">>,
+    <<"BS", "macro", "N", "(", "N", ")", "BE", "BS", "set", "N", "=", "N", "BE">> \o Use \o <<"BS", "endmacro", "BE">>,
+    <<"BS", "set", "N", "BE", "BS", "endset", "BE">> \o Use }
+PairProds == [StmtProds EXCEPT !.Template = PairSents]
 Prods == CASE Profile = "stmt" -> StmtProds [] Profile = "forms" -> FormProds
-           [] Profile = "scope" -> ScopeProds [] OTHER -> FullProds
+           [] Profile = "scope" -> ScopeProds [] Profile = "fold" -> FoldProds
+           [] Profile = "kwarg" -> KwProds [] Profile = "pairs" -> PairProds [] OTHER -> FullProds
 
 NonTerms == DOMAIN Prods
 IsNT(x) == x \in NonTerms
@@ -191,10 +287,15 @@ Terminals == UNION {RangeOf(rhs) : rhs \in UNION {Prods[n] : n \in NonTerms}} \ 
 
 \* least number of tokens derivable from each nonterminal; the ASSUME checks
 \* that the table is the fixpoint of the grammar equations
-MinLen ==
-  [ Template |-> CASE Profile = "stmt" -> 1 [] Profile = "forms" -> 3 [] Profile = "scope" -> 4 [] OTHER -> 0, Elems |-> 0, Elem |-> 1, Stmt |-> 4, Target |-> 1, Params |-> 0, Args |-> 0,
+BaseMinLen ==
+  [ Template |-> CASE Profile = "stmt" -> 1 [] Profile = "forms" -> 3 [] Profile = "scope" -> 4
+                   [] Profile = "fold" -> 3 [] Profile = "kwarg" -> 8 [] Profile = "pairs" -> 8 [] OTHER -> 0,
+    Elems |-> 0, Elem |-> 1, Stmt |-> 4, Target |-> 1, Params |-> 0, Args |-> 0,
     ExprT |-> 1, Expr |-> 1, Expr0 |-> 1, Cmp |-> 1, Bin |-> 1, Unary |-> 1, Post |-> 1,
     Sufs |-> 0, Suf |-> 2, Flts |-> 0, Atom |-> 1, Sub |-> 1, Sub1 |-> 1 ]
+MinLen == IF Profile = "kwarg"
+          THEN [BaseMinLen EXCEPT !.Expr = 6, !.Elem = 8, !.Elems = 8, !.Stmt = 14]
+          ELSE BaseMinLen
 RECURSIVE SumSeq(_, _)
 SumSeq(s, m) == IF s = <<>> THEN 0 ELSE (IF IsNT(Head(s)) THEN m[Head(s)] ELSE 1) + SumSeq(Tail(s), m)
 MinOf(S) == CHOOSE x \in S : \A y \in S : x <= y
@@ -216,11 +317,32 @@ Shift(o, st) == IF st # <<>> /\ ~IsNT(Head(st)) THEN Shift(Append(o, Head(st)), 
 TokText(tk) == CASE tk = "BS" -> "{%" [] tk = "BE" -> "%}" [] tk = "VS" -> "{{" [] tk = "VE" -> "}}"
                  [] tk = "CS" -> "{#" [] tk = "CE" -> "#}" [] tk = "nl" -> "\n" [] tk = "F" -> "upper"
                  [] tk = "T" -> "defined" [] tk = "N" -> "N" [] OTHER -> tk
+\* (K, the name of a keyword argument, is written like N: the next identifier of the naming scheme)
 \* tokens only mutation introduces
 \* names the compiler / runtime treat specially when a template declares, binds or uses them
 CoreNames == {"varargs", "kwargs", "caller", "loop", "self", "super"}
 MoreNames == {"_", "namespace", "true", "None", "context", "environment", "range", "cycler"}
 SpecialNames == CASE NameSet = "core" -> CoreNames [] NameSet = "all" -> CoreNames \cup MoreNames [] OTHER -> {}
+\* names of the keyword arguments / parameters the compiler adds to the calls and functions it
+\* generates (context.call(f, _loop_vars=.., _block_vars=..), caller=.. of a call block, varargs /
+\* kwargs / caller of a macro, the arguments of the root and block functions and of Context.call)
+KwCore == {"_loop_vars", "_block_vars", "caller", "varargs", "kwargs", "context", "environment", "self", "loop", "__self"}
+KwMore == {"__obj", "eval_ctx", "missing", "resolve", "undefined", "_", "args", "name", "l_0_x", "t_1"}
+KwNames == CASE NameSet = "core" -> KwCore [] NameSet = "all" -> KwCore \cup KwMore [] OTHER -> {}
+\* identifiers given by their code points (the harness writes chr() of them): pairs that are
+\* different names for Jinja but the same, or a related, identifier for Python, which normalises
+\* identifiers to NFKC - ligature, long s, micro sign / mu, Kelvin sign, fullwidth letter, feminine
+\* ordinal, combining / precomposed accent; pairs that differ in case only; and an identical pair
+NameCodes ==
+  [ u_filig |-> <<64257>>, u_fi |-> <<102, 105>>, u_longs |-> <<383>>, u_s |-> <<115>>,
+    u_micro |-> <<181>>, u_mu |-> <<956>>, u_kelvin |-> <<8490>>, u_K |-> <<75>>, u_k |-> <<107>>,
+    u_fwa |-> <<65345>>, u_a |-> <<97>>, u_A |-> <<65>>, u_ord |-> <<170>>,
+    u_ecomb |-> <<101, 769>>, u_eacute |-> <<233>> ]
+NamePairs ==
+  IF NameSet = "none" THEN {}
+  ELSE { <<"u_filig", "u_fi">>, <<"u_longs", "u_s">>, <<"u_micro", "u_mu">>, <<"u_kelvin", "u_K">>,
+         <<"u_fwa", "u_a">>, <<"u_ord", "u_a">>, <<"u_ecomb", "u_eacute">>,
+         <<"u_K", "u_k">>, <<"u_a", "u_A">>, <<"u_a", "u_a">> }
 ExtraToks == {"endset", "elif", "trans", "endtrans", "pluralize", "do", "break", "continue", "debug",
               "loop", "caller", "self", "super", "varargs", "kwargs", "'", "\"", "\\", "?", "@", "-%}", "{%-", "+%}", "{%+",
               "{{-", "-}}", "}", "{", "#", "##", "0x", "1e", "1_", "."}
@@ -259,6 +381,22 @@ OccursAt(w, p, i) == i + Len(p) - 1 <= Len(w) /\ \A k \in 1..Len(p) : w[i + k - 
 PlainData(s, cfg) == LET w == Written(s, cfg)
                      IN \A p \in Openers(cfg) : \A i \in 1..Len(w) : ~OccursAt(w, p, i)
 
+(* ------------------------------------------------------------------------ *)
+(* spellings of numbers                                                      *)
+(* ------------------------------------------------------------------------ *)
+\* Mode "numbers": every string up to MaxLen over the characters number literals are made of -
+\* ASCII digits, the separators and markers of integer / float / radix spellings, signs - and
+\* Unicode number characters that are not ASCII digits (given by code point): decimal digits of
+\* other scripts (Nd: Arabic-Indic two, fullwidth five, Devanagari one), other numbers (No:
+\* superscript two, vulgar fraction one half) and letter numbers (Nl: Roman numeral eight).
+\* The lexer may read a spelling as one token, several, or none; placed in an expression
+\* (NumFrames) it must load or fail with a template syntax error: nothing more is predicted.
+NumCodes == [ d_arab2 |-> 1634, d_fw5 |-> 65301, d_deva1 |-> 2407, d_sup2 |-> 178, d_half |-> 189, d_roman8 |-> 8551 ]
+NumSigma == {"0", "1", "9", "_", ".", "e", "x", "b", "-", "+"} \cup DOMAIN NumCodes
+NumFrames == << << <<"VS", " ">>, <<" ", "VE">> >>,
+                << <<"BS", " if x == ">>, <<" ", "BE", "y", "BS", " endif ", "BE">> >>,
+                << <<"VS", " [">>, <<", 1] ", "VE">> >> >>
+
 \* what the harness needs to write cases out: token texts, and for every syntax
 \* configuration the delimiters and line prefixes (environments are built from it)
 Syms == {"BS", "BE", "VS", "VE", "CS", "CE"}
@@ -266,7 +404,8 @@ Legend ==
     [legend |-> [tk \in AllToks |-> TokText(tk)],
      delims |-> [cfg \in SyntaxCfgs |-> [sym \in Syms |-> Delim(cfg, sym)]],
      line_statement_prefix |-> <<"%">>,
-     line_comment_prefix |-> <<"#", "#">>]
+     line_comment_prefix |-> <<"#", "#">>,
+     codes |-> NameCodes, numcodes |-> NumCodes, numframes |-> NumFrames]
 
 (* ------------------------------------------------------------------------ *)
 (* outcome classification                                                    *)
@@ -292,7 +431,8 @@ Init ==
     /\ CASE Mode = "skeletons" -> /\ LET s == Shift(<<>>, <<"Template">>) IN out = s[1] /\ stack = s[2]
                                   /\ phase = "derive"
                                   /\ PrintT(ToJson(Legend))
-         [] Mode = "strings"   -> /\ out = <<>> /\ stack = <<>> /\ phase = "done"
+         [] Mode \in {"strings", "numbers"}
+                               -> /\ out = <<>> /\ stack = <<>> /\ phase = "done"
                                   /\ PrintT(ToJson(Legend))
          [] Mode = "outcomes"  -> /\ out \in {Outcomes[i] : i \in 1..Len(Outcomes)}
                                   /\ stack = <<>> /\ phase = "outcome"
@@ -324,15 +464,35 @@ Replace(i, t) == /\ out[i] # t
 \* a special name at a non-empty set P of the identifier positions of a sentence
 NPos(s) == {i \in 1..Len(s) : s[i] = "N"}
 Rename ==
-    /\ Mode = "skeletons" /\ phase = "done" /\ muts = <<>>
+    /\ Mode = "skeletons" /\ phase = "done" /\ muts = <<>> /\ Profile \notin {"kwarg", "pairs"}
     /\ \E s \in SpecialNames : \E P \in (SUBSET NPos(out)) \ {{}} :
           /\ out' = [i \in 1..Len(out) |-> IF i \in P THEN s ELSE out[i]]
           /\ muts' = << <<"name", s>> >>
     /\ UNCHANGED <<stack, phase>>
 
+\* a name the compiler itself passes as a keyword argument, as the name of the keyword
+\* arguments at a non-empty set P of the keyword positions of a sentence (profile "kwarg")
+KPos(s) == {i \in 1..Len(s) : s[i] = "K"}
+RenameKw ==
+    /\ Mode = "skeletons" /\ phase = "done" /\ muts = <<>> /\ Profile = "kwarg"
+    /\ \E s \in KwNames : \E P \in (SUBSET KPos(out)) \ {{}} :
+          /\ out' = [i \in 1..Len(out) |-> IF i \in P THEN s ELSE out[i]]
+          /\ muts' = << <<"kwname", s>> >>
+    /\ UNCHANGED <<stack, phase>>
+
+\* two identifiers Python takes for the same (NFKC-equal) or for related (case) names, at any
+\* two identifier positions of a sentence, in both orders (profile "pairs")
+RenamePair ==
+    /\ Mode = "skeletons" /\ phase = "done" /\ muts = <<>> /\ Profile = "pairs"
+    /\ \E pr \in NamePairs : \E i \in NPos(out) : \E j \in NPos(out) \ {i} :
+          /\ out' = [out EXCEPT ![i] = pr[1], ![j] = pr[2]]
+          /\ muts' = << <<"pair", pr[1], pr[2]>> >>
+    /\ UNCHANGED <<stack, phase>>
+
+RenameKinds == {"name", "kwname", "pair"}
 Mutate ==
     /\ Mode = "skeletons" /\ phase = "done" /\ Len(muts) < MaxMut
-    /\ (muts # <<>> => muts[1][1] # "name")
+    /\ (muts # <<>> => muts[1][1] \notin RenameKinds)
     /\ \E i \in 1..Len(out) :
           \/ Delete(i) \/ Duplicate(i) \/ Swap(i)
           \/ \E t \in MutToks : Replace(i, t)
@@ -341,6 +501,11 @@ Mutate ==
 Grow ==
     /\ Mode = "strings" /\ phase = "done" /\ Len(out) < MaxLen /\ muts = <<>>
     /\ \E c \in Sigma : out' = Append(out, c)
+    /\ UNCHANGED <<stack, muts, phase>>
+
+GrowNum ==
+    /\ Mode = "numbers" /\ phase = "done" /\ Len(out) < MaxLen
+    /\ \E c \in NumSigma : out' = Append(out, c)
     /\ UNCHANGED <<stack, muts, phase>>
 
 \* a short string in which markup is open in some configuration, continued by a long
@@ -360,7 +525,7 @@ Pump ==
     /\ UNCHANGED <<stack, phase>>
 
 SkeletonCase ==
-    [kind   |-> IF muts = <<>> THEN "valid" ELSE IF muts[1][1] = "name" THEN "named" ELSE "mutant",
+    [kind   |-> IF muts = <<>> THEN "valid" ELSE IF muts[1][1] \in RenameKinds THEN "named" ELSE "mutant",
      toks   |-> out,
      muts   |-> muts,
      lines  |-> 1 + CountNl(out),
@@ -373,10 +538,18 @@ StringCase ==
      lines  |-> 1 + Cardinality({i \in 1..Len(out) : out[i] = "\n"}),
      plain  |-> {cfg \in SyntaxCfgs : PlainData(out, cfg)}]
 
+\* a spelling of a number (or of something near one); the harness places it in every frame
+NumberCase == [kind |-> "number", syms |-> out, muts |-> muts, lines |-> 1]
+
+\* (the unrenamed sentences of the profiles "kwarg" and "pairs" are not cases: the grammar of
+\* these profiles is not claimed to derive valid templates only)
 Emit ==
     /\ phase = "done"
+    /\ (Mode = "skeletons" /\ Profile \in {"kwarg", "pairs"}) => muts # <<>>
+    /\ Mode = "numbers" => out # <<>>
     /\ phase' = "emitted"
-    /\ PrintT(ToJson(IF Mode = "skeletons" THEN SkeletonCase ELSE StringCase))
+    /\ PrintT(ToJson(CASE Mode = "skeletons" -> SkeletonCase [] Mode = "numbers" -> NumberCase
+                        [] OTHER -> StringCase))
     /\ UNCHANGED <<out, stack, muts>>
 
 \* outcomes observed on the real engine are judged one by one
@@ -386,7 +559,7 @@ Judge ==
     /\ PrintT(ToJson([id |-> out.id, allowed |-> Allowed(out)]))
     /\ UNCHANGED <<out, stack, muts>>
 
-Next == Derive \/ Finish \/ Rename \/ Mutate \/ Grow \/ Pump \/ Emit \/ Judge
+Next == Derive \/ Finish \/ Rename \/ RenameKw \/ RenamePair \/ Mutate \/ Grow \/ GrowNum \/ Pump \/ Emit \/ Judge
 Spec == Init /\ [][Next]_vars
 
 (* ------------------------------------------------------------------------ *)
